@@ -1,6 +1,7 @@
 //! verif-harness: binds the TLA+ specification in /verif/spec to the real adblock-rust code.
 //!   replay <cases.jsonl> <report.json>   spec -> impl (M2): execute TLC-generated cases
 //!   record <driver> <out.ndjson> [args]  impl -> spec (M3): run a driver, log events for TLC
+mod cos;
 mod hist;
 mod net;
 mod ser;
@@ -26,6 +27,7 @@ fn main() {
             let mut rep = util::Report::default();
             let mut ctx = net::Ctx::default();
             let mut nctx = net::NetCtx::default();
+            let mut cctx = cos::CosCtx::default();
             for c in cases.iter() {
                 let k = c["k"].as_str().unwrap_or("");
                 match k {
@@ -36,6 +38,8 @@ fn main() {
                             nctx.set_universe(c)
                         }
                     }
+                    "universe-cos" => cctx.set_universe(c),
+                    "cos" => cos::replay_cos(&cctx, c, &mut rep),
                     "net" => net::replay_net(&nctx, c, &mut rep),
                     "hist" => hist::replay_hist(&nctx, c, &mut rep),
                     "c02" => net::replay_c02(&ctx, c, &mut rep),
@@ -65,6 +69,7 @@ fn main() {
                     ser::record_c09(&args[3], seed, n, children, &wd)
                 }
                 "c10" => ser::record_c10(&args[3], seed, n > 1),
+                "c18" => cos::record_c18(&args[3], seed, n),
                 other => {
                     eprintln!("harness: unknown driver {:?}", other);
                     std::process::exit(2);
